@@ -418,18 +418,10 @@ def waived : String → List Defect
   | "aten::tensor.bool" => [.clause .kwBound, .clause .requiredBound]
   | "aten::tensor.float" => [.clause .kwBound, .clause .requiredBound]
   | "aten::tensor.int" => [.clause .kwBound, .clause .requiredBound]
-  -- C16-dtype-dropped: `dtype` of aten::mean is not a parameter (scripted: silently dropped)
-  | "aten::mean" => [.clause .kwBound]
-  | "aten::repeat_interleave.Tensor" => [.clause .posNames, .clause .kwBound]
+  -- C16-repeat-interleave-self: schema `repeats` lands on parameter `self` (body compensates)
+  | "aten::repeat_interleave.Tensor" => [.clause .posNames]
   -- C16-positional-surplus: the schema has more positional arguments than the function
-  | "aten::stft" => [.clause .posFits]
-  | "prims::device_put" => [.clause .posFits]
   | "torchvision::roi_pool" => [.clause .posFits, .clause .posAccepts, .clause .posNames]
-  -- C16-tensor-on-attribute: Tensor scale / zero_point (/ quant_min / quant_max) land on float/int attributes
-  | "quantized_decomposed::quantize_per_tensor.tensor" => [.clause .posAccepts]
-  | "quantized_decomposed::quantize_per_tensor.tensor2" => [.clause .posAccepts]
-  | "quantized_decomposed::dequantize_per_tensor.tensor" => [.clause .posAccepts]
-  | "quantized_decomposed::dequantize_per_tensor.tensor2" => [.clause .posAccepts]
   | _ => []
 
 def rowWithin (e : Entry) : Bool := e.defects.all (fun d => (waived e.qualified).contains d)
